@@ -32,7 +32,7 @@ def readBuilt (cfg : MapCfg) (a : Adapter) (url : Str) : Option (Adapter × Str)
         match stripSuffix? ('.' :: a.serverName) host with
         | some sub => (some { a with subdomain := some sub }, rest)
         | none => (none, rest)
-  let path := pathq.takeWhile (· != '?')
+  let path := pathq.takeWhile (fun c => c != '?' && c != '#')
   match a2?, stripPrefix? a.scriptName path with
   | some a2, some p => some (a2, '/' :: unquote p)
   | _, _ => none
